@@ -228,7 +228,7 @@ pub fn run(ctx: &Ctx) -> Outcome {
          draw_image_at puts texel (i,j) on pixel (x+i,y+j), draw_image_with_size_at stretches the image over the rectangle. Samples within the 16.16 conversion error of a boundary accept either neighbour (counted). Non-trivial: at least two distinct colours observed; distinct = hash of the case.",
     );
     let secs = if ctx.quick() { 40. } else { 900. };
-    run_cases(ctx, &mut out, SubSpec { name: "image_sources", cases: ctx.n(15_000, 1_000_000), exhaustive: false, max_secs: secs }, |i, want, st| {
+    run_cases(ctx, &mut out, SubSpec { name: "image_sources", cases: ctx.n(60_000, 1_000_000), exhaustive: false, max_secs: secs }, |i, want, st| {
         let mut rng = ctx.rng("image_sources", i);
         let c = gen_case(&mut rng);
         let mut co = CaseOut::default();
@@ -257,7 +257,7 @@ pub fn run(ctx: &Ctx) -> Outcome {
         co
     });
 
-    run_cases(ctx, &mut out, SubSpec { name: "draw_image_calls", cases: ctx.n(10_000, 600_000), exhaustive: false, max_secs: secs / 2. }, |i, want, st| {
+    run_cases(ctx, &mut out, SubSpec { name: "draw_image_calls", cases: ctx.n(40_000, 600_000), exhaustive: false, max_secs: secs / 2. }, |i, want, st| {
         let mut rng = ctx.rng("draw_image_calls", i);
         let w = rng.int(2, 24) as i32;
         let h = rng.int(2, 24) as i32;
